@@ -39,3 +39,6 @@ def run(rep: Report, repo: Repo, tier: str) -> None:
     # the end commands pop whether or not a doccomment stands in front of them (entry protocol of every command kind)
     with rep.isolated():
         protocol.rule_protocol_default(rep, repo, "C03-R8")
+    # the trigger string and strip patterns in effect are the configured ones, character for character
+    with rep.isolated():
+        tables.rule_no_option_rewrite(rep, repo, "C03-R9")
